@@ -227,6 +227,8 @@ def isAnswer (w : Nat) : Out → Bool
 @[simp] theorem isAnswer_lost (w a : Nat) (i : Inv) : isAnswer w (.lost a i) = false := rfl
 @[simp] theorem isAnswer_repeated (w a : Nat) : isAnswer w (.repeated a) = false := rfl
 @[simp] theorem isAnswer_abandoned (w a : Nat) (i : Inv) : isAnswer w (.abandoned a i) = false := rfl
+@[simp] theorem isAnswer_progressSent (w a : Nat) : isAnswer w (.progressSent a) = false := rfl
+@[simp] theorem isAnswer_progressRefused (w a : Nat) : isAnswer w (.progressRefused a) = false := rfl
 
 def Outer.answered : Outer → Bool
   | .exited true => true
